@@ -8,7 +8,7 @@ use poulpy_hal::{
         VecZnxRotateAssignTmpBytes, VecZnxRshAssign, VecZnxRshTmpBytes, VecZnxSub, VecZnxSubAssign, VecZnxSubNegateAssign,
         VecZnxZero,
     },
-    layouts::{Backend, DataMut, DataRef, GaloisElement, Scratch},
+    layouts::{Backend, DataMut, DataRef, GaloisElement, Scratch, ZnxZero},
 };
 
 use crate::{
@@ -652,8 +652,14 @@ where
         assert!(res.rank() >= a.rank());
 
         let base2k: usize = res.base2k().into();
-        for i in 0..res.rank().as_usize() + 1 {
+        for i in 0..a.rank().as_usize() + 1 {
             self.vec_znx_lsh(base2k, k, res.data_mut(), i, a.data(), i, scratch);
+        }
+        // Columns that `a` does not have (res.rank() > a.rank()) hold no data.
+        for i in a.rank().as_usize() + 1..res.rank().as_usize() + 1 {
+            for j in 0..res.size() {
+                res.data_mut().zero_at(i, j);
+            }
         }
     }
 
@@ -678,7 +684,7 @@ where
         assert!(res.rank() >= a.rank());
 
         let base2k: usize = res.base2k().into();
-        for i in 0..res.rank().as_usize() + 1 {
+        for i in 0..a.rank().as_usize() + 1 {
             self.vec_znx_lsh_add_into(base2k, k, res.data_mut(), i, a.data(), i, scratch);
         }
     }
@@ -704,7 +710,7 @@ where
         assert!(res.rank() >= a.rank());
 
         let base2k: usize = res.base2k().into();
-        for i in 0..res.rank().as_usize() + 1 {
+        for i in 0..a.rank().as_usize() + 1 {
             self.vec_znx_lsh_sub(base2k, k, res.data_mut(), i, a.data(), i, scratch);
         }
     }
